@@ -18,6 +18,7 @@ import (
 	"context"
 	"os"
 	"sort"
+	"syscall"
 	"time"
 
 	"github.com/bufbuild/bufverif/internal/evid"
@@ -25,6 +26,14 @@ import (
 
 func init() {
 	evid.Register(&evid.Check{ID: "C20", Level: "exploration", Run: run, QuickBudget: 85 * time.Second, ThoroughBudget: 14 * time.Minute})
+}
+
+func cpuSeconds() float64 {
+	var ru syscall.Rusage
+	if syscall.Getrusage(syscall.RUSAGE_SELF, &ru) != nil {
+		return 0
+	}
+	return float64(ru.Utime.Sec+ru.Stime.Sec) + float64(ru.Utime.Usec+ru.Stime.Usec)/1e6
 }
 
 func run(r *evid.Run) {
@@ -44,9 +53,11 @@ func run(r *evid.Run) {
 	ctx := context.Background()
 	dst := &directStats{}
 	t0 := time.Now()
+	c0 := cpuSeconds()
 	phase := func(name string) {
-		r.Set("wall_s_"+name, time.Since(t0).Seconds())
-		t0 = time.Now()
+		// informational only (not part of any oracle): wall and process CPU seconds per phase
+		r.Set("phase_"+name, map[string]float64{"wall_s": time.Since(t0).Seconds(), "cpu_s": cpuSeconds() - c0})
+		t0, c0 = time.Now(), cpuSeconds()
 	}
 	hostileTexts(r, dst)
 	phase("A1")
